@@ -209,7 +209,14 @@ def setup_simple(desc):
                 kw["dask"] = "parallelized" if mode == "parallelized" else "allowed"
                 if mode == "allowed-map_overlap":
                     kw["map_overlap"] = True
+            if mode == "parallelized" and desc["dseed"] % 3 == 0:
+                # a second input on the same position that stays in memory next to the lazy one: inputs that are lazy in
+                # part are accepted as wholly lazy or wholly in-memory ones are
+                sig2 = f"(lon:{frm}),(lon:{frm})->(lon:{t_})"
+                return g.apply_as_grid_ufunc(lambda p, q: user(p) - np.asarray(q)[..., 1:] / 2, x, da2, axis=[(a,), (a,)], signature=sig2, boundary_width=bw, **call, **kw)
             return g.apply_as_grid_ufunc(user, x, axis=[(a,)], signature=sig, boundary_width=bw, **call, **kw)
+
+        da2 = (da * 0.5 + 1).rename("companion")
 
     if g_lazy is not g:
         # the same closure, but evaluated on the dask-backed grid when the input is lazy
@@ -330,7 +337,11 @@ def run_case(ctx, desc):
         return with_coord(z, True)
 
     if fam == "D" and desc["vector"]:
-        lazy_in = {k: lazify(v) for k, v in data.items()}
+        # both components lazy, or only one of them (the operated component with an in-memory partner, or the reverse):
+        # a vector input that is lazy in part is a lazy input
+        mix = desc["dseed"] % 3
+        opd = desc["axis"]
+        lazy_in = {k: (v if (mix == 1 and k != opd) or (mix == 2 and k == opd) else lazify(v)) for k, v in data.items()}
     else:
         lazy_in = lazify(data)
     cnt = chaos.Count()
@@ -351,6 +362,13 @@ def run_case(ctx, desc):
         ctx.violation("no-compute-while-building", f"{opname} {shifts}: {cnt.n} graph execution(s) were triggered while the result was being built (chunks {chunks})")
         return
     if not dask.is_dask_collection(r):
+        if fam == "D" and desc["vector"] and desc["dseed"] % 3 == 2:
+            # only the partner was lazy: where no axis-swapping link brings it in, the result is rightly in memory
+            ctx.judged(("lazy-partner-unused", opname), False)
+            why = identical(r, eager)
+            if why:
+                ctx.violation("lazy-equals-eager", f"{opname} {shifts} (component in memory, partner lazy, chunks {chunks}): {why}")
+            return
         ctx.violation("result-is-lazy", f"{opname} {shifts}: the result of a dask-backed input is not a dask collection")
         return
     for spec in desc["scheds"]:
